@@ -463,6 +463,9 @@ def run(ctx):
     rule_flag_default(ctx, r4, "gwf.plugins.run:run", "--dry-run", "`gwf run` would never submit anything")
     r5 = ctx.rule("R5", "prerequisite targets are translated to the tracked job ids by name, all of them", min_instances=2)
     rule_id_lookup(ctx, r5)
+    # "pending or running -> never submitted again": the job stays on record whatever part of the workflow a command looks at
+    from .persist import rule_table_ownership
+    rule_table_ownership(ctx, r5, ("tracked jobs",))
     from .schedmodel import cluster_witness
     cw = cached_witness(ctx, "cluster", cluster_witness)
     report_witness(r5, "src/gwf/backends::<X>Ops.submit_target::scheduler-model", "src/gwf/backends/slurm.py:1", cw,
